@@ -134,6 +134,7 @@ func TestWorker(t *testing.T) {
 		return
 	}
 
+	digest := os.Getenv("VERIF_DIGEST") != ""
 	from, to := envInt("VERIF_FROM", 0), envInt("VERIF_TO", 1)
 	budget := time.Duration(envInt("VERIF_BUDGET_S", 3600)) * time.Second
 	start := time.Now()
@@ -154,6 +155,22 @@ func TestWorker(t *testing.T) {
 		rc := &RunCtx{Prop: prop, Engine: engName, Seed: seed, Index: i, T: t, Tier: tier,
 			W: simrt.NewTape(simrt.Mix(seed, 1)), S: simrt.NewTape(simrt.Mix(seed, 2))}
 		o := runOnce(eng, rc)
+		if digest {
+			h := fnv(rc.W.Hash(), rc.S.Hash())
+			h = fnv(h, hashStr(o.Class+"|"+o.Key))
+			h = fnv(h, uint64(o.Checks))
+			if o.Sim != nil {
+				h = fnv(h, uint64(o.Sim.Stats.Steps))
+				h = fnv(h, uint64(o.Sim.Stats.Switches))
+				h = fnv(h, uint64(o.Sim.Stats.SimNanos))
+				h = fnv(h, uint64(o.Sim.Stats.Tasks))
+				h = fnv(h, uint64(o.Sim.Seq))
+				for _, tr := range o.Sim.Traces {
+					h = fnv(h, hashStr(tr.Task+tr.Name))
+				}
+			}
+			emit(map[string]interface{}{"type": "digest", "index": i, "d": fmt.Sprintf("%x", h)})
+		}
 		sum.Runs++
 		if o.Evals > 0 {
 			sum.Evals += int64(o.Evals)
